@@ -11,6 +11,7 @@ package main
 //   conc fu                      every session acknowledged (201) by the last batch is updated and released;
 //                                  fu=<status/status,...> (each under a 10 s deadline; `hang` otherwise)
 //
+//   conc first <supiPrefixHex> <rounds>      first contact over and over: accepted and refused creates of a never-seen subscriber together (conc_first.go)
 //   conc hammer <roles> <supiHex> <rounds>   loops of requests on one subscriber by several goroutines (conc_hammer.go)
 //
 // The requests of a batch are prepared (bodies marshalled) before the barrier opens; only the HTTP exchange
@@ -241,6 +242,8 @@ func runConc(line string, t []string) string {
 		return fmt.Sprintf("done=1 n=%d created=%d lsn=%d:%d:%d:%s", n*rounds, ok, total, lo, hi, strings.Join(ds, ","))
 	case "hammer":
 		return runHammer(t[1:]) // conc_hammer.go
+	case "first":
+		return runConcFirst(t[1:]) // conc_first.go
 	case "fu":
 		var out []string
 		for i, a := range concAcked {
@@ -291,6 +294,14 @@ func genHammers(o genOpts, w *bufio.Writer, families ...string) {
 				n = rounds * 3 / 2 // (atomic counters: nothing for the race detector to see, the collision has to happen)
 			}
 			fmt.Fprintf(w, "conc hammer %s %s %d\n", roles, hexOf([]byte(fmt.Sprintf("imsi-20897%04d%03d%03d", o.seed%10000, k, r.intn(1000)))), n)
+		}
+		if f == "hammer-events" {
+			// first contact over and over: an accepted, another accepted and a refused create for a never-seen subscriber together
+			n := 600
+			if o.tier == "thorough" {
+				n = 6000
+			}
+			fmt.Fprintf(w, "conc first %s %d\n", hexOf([]byte(fmt.Sprintf("imsi-2%04d%02d", o.seed%10000, r.intn(100)))), n)
 		}
 	}
 }
